@@ -1,4 +1,11 @@
-(* Property C15 - after a fatal error or closure a session stays dead.  Statements only. *)
+(* Property C15 - after a fatal error or closure a session stays dead.  Statements only.
+   [decode] covers TLS 1.1/1.2, TLS 1.3 and DTLS 1.0/1.2 (dtls s = true).
+   Reading for DTLS: DTLS drops records of another epoch and replayed sequence numbers without decrypting them (RFC 6347
+   4.1.2.1, 4.1.2.6).  Such a silent discard is not "an error the session hit": no alert is sent or received and no error is
+   reported, so the session may live on (c15_dtls_not_accepted_dropped: the drop changes nothing but the expected epoch).
+   Everything else is as in TLS: a record that is decrypted and does not verify is fatal (c15_dtls_undecryptable_kills), every
+   fatal alert sent or received and every close_notify flags the session, and a flagged DTLS session refuses every record
+   (c15_sticky), delivers and encrypts nothing and never has its last handshake flight encoded again (c15_dtls_no_resend_when_dead). *)
 From MV Require Import Sess.SessModel Sess.SessProofs.
 Local Open Scope Z_scope.
 
@@ -20,7 +27,7 @@ Print Assumptions c15_fatal_out_flags.
 (* receiving close_notify closes; receiving a fatal alert (TLS 1.3: any other alert) flags *)
 Theorem c15_alert_in_flags : forall s r o s' lvl d, decode s r o = (s', AlertIn lvl d) ->
   (d = c_SSL_ALERT_CLOSE_NOTIFY -> closed s' = true) /\
-  (d <> c_SSL_ALERT_CLOSE_NOTIFY -> (v13 s = true /\ is_fallback o = false) \/ lvl = c_SSL_ALERT_LEVEL_FATAL -> err s' = true).
+  (d <> c_SSL_ALERT_CLOSE_NOTIFY -> (dtls s = false /\ v13 s = true /\ is_fallback o = false) \/ lvl = c_SSL_ALERT_LEVEL_FATAL -> err s' = true).
 Proof. exact alert_in_flags. Qed.
 Print Assumptions c15_alert_in_flags.
 
@@ -31,7 +38,8 @@ Print Assumptions c15_flags_monotone.
 
 (* the only undecryptable records tolerated are those a TLS 1.3 server skips while rejecting early data, up to the limit *)
 Theorem c15_early_data_exception_bounded : forall s r o s' out,
-  v13 s = true -> is_fallback o = false -> rsec s = true -> is_good r = false ->
+  dtls s = false -> v13 s = true -> is_fallback o = false -> rsec s = true -> is_good r = false ->
+  r_hdr r <> HdrTrunc ->
   r_outer r <> c_SSL_RECORD_TYPE_CHANGE_CIPHER_SPEC ->
   (r_outer r = c_SSL_RECORD_TYPE_ALERT -> r_short_alert r = false) ->
   decode s r o = (s', out) ->
@@ -39,3 +47,45 @@ Theorem c15_early_data_exception_bounded : forall s r o s' out,
   (out = Ignored /\ ed_skip s = true /\ ed_seen s' <= ed_max s /\ ed_seen s' = ed_seen s + r_len r).
 Proof. exact undecryptable_tolerated_only_early_data. Qed.
 Print Assumptions c15_early_data_exception_bounded.
+
+(* DTLS: a record that is not taken to decryption (other epoch, replayed sequence number) is dropped: either with a fatal alert
+   (later epoch at a server still expecting ClientHello) or silently / with a retransmission request, and then nothing but the
+   expected epoch changes *)
+Theorem c15_dtls_not_accepted_dropped : forall s r o s' out,
+  r_hdr r = HdrOk -> ~ dtls_accepts s r -> decodeD s r o = (s', out) ->
+  (exists d, out = AlertOut d /\ err s' = true) \/
+  (silent out /\ err s' = err s /\ closed s' = closed s /\ hs s' = hs s /\ rsec s' = rsec s /\ wsec s' = wsec s /\
+   pccs s' = pccs s /\ adx s' = adx s /\ ignored s' = ignored s /\ (xepoch s' = xepoch s \/ xepoch s' = r_epoch r)).
+Proof. exact dtls_not_accepted_dropped. Qed.
+Print Assumptions c15_dtls_not_accepted_dropped.
+
+(* DTLS: no undecryptable record is tolerated once it has been taken to decryption *)
+Theorem c15_dtls_undecryptable_kills : forall s r o s' out,
+  rsec s = true -> is_good r = false -> r_hdr r = HdrOk -> dtls_accepts s r ->
+  decodeD s r o = (s', out) -> exists d, out = AlertOut d /\ err s' = true.
+Proof. exact dtls_undecryptable_kills. Qed.
+Print Assumptions c15_dtls_undecryptable_kills.
+
+(* DTLS: the flags change only with an alert sent or received *)
+Theorem c15_dtls_flags_only_by_alerts : forall s r o s' out,
+  decodeD s r o = (s', out) ->
+  match out with
+  | AlertOut _ => err s' = true
+  | AlertIn _ _ => True
+  | _ => err s' = err s /\ closed s' = closed s
+  end.
+Proof. exact dtls_flags_only_by_alerts. Qed.
+Print Assumptions c15_dtls_flags_only_by_alerts.
+
+(* DTLS: matrixDtlsGetOutdata never encodes the last flight of a flagged session again, and rebuilds a flight of a live session
+   only at a flight boundary with nothing pending and no application data received *)
+Theorem c15_dtls_no_resend_when_dead : forall s pending fd resumed cauth,
+  err s || closed s = true -> dtls_getout s pending fd resumed cauth <> GoResend.
+Proof. exact dtls_getout_dead. Qed.
+Print Assumptions c15_dtls_no_resend_when_dead.
+
+Theorem c15_dtls_resend_only_live : forall s pending fd resumed cauth,
+  dtls_getout s pending fd resumed cauth = GoResend ->
+  pending = false /\ adx s = false /\ fd = false /\ err s = false /\ closed s = false /\ can_resend s resumed cauth = true.
+Proof. exact dtls_getout_resend. Qed.
+Print Assumptions c15_dtls_resend_only_live.
